@@ -4,10 +4,10 @@
     * list facts: the handle source of a struct read lies BEFORE it (`hd_split`), the reads before
       the `create` are a prefix of the recorded reads (`preOf_prefix`) and lie before an output
       edge (`pre_sub_done`);
-    * `handle_chain`: `handle_dur` (Proofs/CoreSpecRevBump.lean) extended by "the creator's value
+    * `dv_handle_chain`: `handle_dur` (Proofs/CoreSpecRevBump.lean) extended by "the creator's value
       carries the handle";
     * a dependency that passes the shallow test keeps its info across a nested request
-      (`sokDep_info_ext`);
+      (`dv_sokDep_info_ext`);
     * `Green t L o`: read `o` is current in `t` at level `L` — the dependency passes the shallow
       test (is verified now when the edge is recorded), has the recorded value and durability at
       least `L`; stable under `Ext` (`Green.ext`); its value is the from-scratch value
@@ -156,7 +156,7 @@ theorem pre_sub_done {done rest pre post : List Obs} {o : Obs} (h : done ++ o ::
 
 /-- the creator's memo of a handle carried by the value of a memo that passes the shallow test:
     it passes the test, is at least as durable, and its own value carries the handle -/
-theorem handle_chain {P idOf s} (hI : Inv P idOf s) : ∀ q m, s.memos q = some m → SOK s m →
+theorem dv_handle_chain {P idOf s} (hI : Inv P idOf s) : ∀ q m, s.memos q = some m → SOK s m →
     ∀ c, m.value.h = some c → ∃ mc, s.memos c = some mc ∧ SOK s mc ∧ m.dur ≤ mc.dur ∧ mc.value.h = some c := by
   intro q
   induction q using Nat.strongRecOn with
@@ -170,7 +170,7 @@ theorem handle_chain {P idOf s} (hI : Inv P idOf s) : ∀ q m, s.memos q = some 
 
 /-! ### stamps are bounded by the current revision -/
 
-theorem depInfo_ca_le {P idOf s d x} (hI : Inv P idOf s) (h : depInfo s d = some x) : x.ca ≤ s.cur := by
+theorem dv_depInfo_ca_le {P idOf s d x} (hI : Inv P idOf s) (h : depInfo s d = some x) : x.ca ≤ s.cur := by
   cases d with
   | inp i => simp only [depInfo, Option.some.injEq] at h; subst h; exact hI.inp_le i
   | qry q =>
@@ -203,23 +203,23 @@ theorem depInfo_ca_le {P idOf s d x} (hI : Inv P idOf s) (h : depInfo s d = some
         obtain ⟨_, _, a, b, _⟩ := ok.assigned k ho
         exact Nat.le_trans a b
 
-theorem smemo_va1 {P idOf s c sm} (hI : Inv P idOf s) (hm : s.smemos c = some sm) : 1 ≤ sm.va := by
+theorem dv_smemo_va1 {P idOf s c sm} (hI : Inv P idOf s) (hm : s.smemos c = some sm) : 1 ≤ sm.va := by
   have ok := hI.smemo c sm hm
   cases ho : sm.origin with
   | none => exact (ok.derived ho).1.va1
   | some k => exact (ok.assigned k ho).2.2.2.2.1
 
-theorem smemo_dur3 {P idOf s c sm} (hI : Inv P idOf s) (hm : s.smemos c = some sm) : sm.dur ≤ 3 := by
+theorem dv_smemo_dur3 {P idOf s c sm} (hI : Inv P idOf s) (hm : s.smemos c = some sm) : sm.dur ≤ 3 := by
   have ok := hI.smemo c sm hm
   cases ho : sm.origin with
   | none => exact (ok.derived ho).1.dur3
   | some k => exact (ok.assigned k ho).2.2.2.2.2
 
-theorem sok_of_never {P idOf s} (hI : Inv P idOf s) {m : Memo} (h3 : 3 ≤ m.dur) (hva : 1 ≤ m.va) : SOK s m := by
+theorem dv_sok_of_never {P idOf s} (hI : Inv P idOf s) {m : Memo} (h3 : 3 ≤ m.dur) (hva : 1 ≤ m.va) : SOK s m := by
   right; rw [hI.lc_never m.dur h3]; exact hva
 
 /-- no logged write is later than the `verified_at` of a memo that passes the shallow test -/
-theorem no_write_after_sok {P idOf s} (hI : Inv P idOf s) {mc : Memo} (hs : SOK s mc) :
+theorem dv_no_write_after_sok {P idOf s} (hI : Inv P idOf s) {mc : Memo} (hs : SOK s mc) :
     ∀ w d, (w, d) ∈ s.wlog → mc.dur ≤ d → ¬ mc.va < w := by
   intro w d hw hd hlt
   rcases hs with e | e
@@ -231,7 +231,7 @@ theorem no_write_after_sok {P idOf s} (hI : Inv P idOf s) {mc : Memo} (hs : SOK 
 
 /-! ### a dependency that passes the shallow test keeps its info across a nested request -/
 
-theorem sokDep_info_ext {s t : State} {k : Nat} {d : Dep} {x : Res} (h : Ext s t k) (hd : sokDep s d)
+theorem dv_sokDep_info_ext {s t : State} {k : Nat} {d : Dep} {x : Res} (h : Ext s t k) (hd : sokDep s d)
     (hi : depInfo s d = some x) : sokDep t d ∧ depInfo t d = some x := by
   cases d with
   | inp i =>
@@ -263,7 +263,7 @@ theorem sokDep_info_ext {s t : State} {k : Nat} {d : Dep} {x : Res} (h : Ext s t
     exact hi
 
 /-- a NEVER_CHANGE dependency whose creator (for struct reads) is valid passes the shallow test -/
-theorem sokDep_of_never {P idOf s d x} (hI : Inv P idOf s) (hi : depInfo s d = some x) (h3 : 3 ≤ x.dur)
+theorem dv_sokDep_of_never {P idOf s d x} (hI : Inv P idOf s) (hi : depInfo s d = some x) (h3 : 3 ≤ x.dur)
     (hcr : ∀ c, (d = .field c ∨ d = .spec c) → memoSok s c) : sokDep s d := by
   cases d with
   | inp i => trivial
@@ -273,7 +273,7 @@ theorem sokDep_of_never {P idOf s d x} (hI : Inv P idOf s) (hi : depInfo s d = s
     | some m =>
       simp only [depInfo, hm, Option.map_some, Option.some.injEq] at hi
       subst hi
-      exact ⟨m, hm, sok_of_never hI h3 (hI.node q m hm).obs.va1⟩
+      exact ⟨m, hm, dv_sok_of_never hI h3 (hI.node q m hm).obs.va1⟩
   | field c =>
     refine ⟨hcr c (Or.inl rfl), ?_⟩
     cases hm : s.slots c with
@@ -286,7 +286,7 @@ theorem sokDep_of_never {P idOf s d x} (hI : Inv P idOf s) (hi : depInfo s d = s
     | some sm =>
       simp only [depInfo, hm, Option.map_some, Option.some.injEq] at hi
       subst hi
-      exact ⟨sm, rfl, sok_of_never hI h3 (smemo_va1 hI hm)⟩
+      exact ⟨sm, rfl, dv_sok_of_never hI h3 (dv_smemo_va1 hI hm)⟩
 
 /-! ### current reads -/
 
@@ -298,7 +298,7 @@ structure Green (t : State) (L : Nat) (o : Obs) : Prop where
 
 theorem Green.ext {s t : State} {k L : Nat} {o : Obs} (h : Ext s t k) (g : Green s L o) : Green t L o := by
   obtain ⟨x, hx, a, b, c⟩ := g.info
-  obtain ⟨h1, h2⟩ := sokDep_info_ext h g.sok hx
+  obtain ⟨h1, h2⟩ := dv_sokDep_info_ext h g.sok hx
   exact ⟨h1, fun hr => hotDep_ext h (g.hot hr), x, h2, a, b, c⟩
 
 theorem Green.level {t : State} {L L' : Nat} {o : Obs} (g : Green t L o) (h : L' ≤ L) : Green t L' o := by
